@@ -695,7 +695,7 @@ theorem runCmd_versions (c : Ctx) (s : State) (conn ref : Nat) (m : Bool) (cmd :
   case «opaque» => exact allvs_refl s hs
   case dbsize =>
     simp only [runCmd]
-    split <;> exact allvs_refl s hs
+    exact allvs_refl s hs
   all_goals
     simp only [runCmd]
     apply onDb_allvs s ref _ hs
